@@ -721,6 +721,13 @@ pub fn run_racy(cfg: &ScenCfg, out: &mut RunOut) {
         let peer = net::connect_from(addr, format!("10.0.4.{}:{}", k + 1, 7000 + k).parse().unwrap()).unwrap();
         sess.push(S { peer, stream, cuts, pos: 0, expected, calls, unit });
     }
+    // fault: one peer stops reading (tiny window) until the end of the run; the others are unaffected
+    let stalled: Option<usize> = if cfg.faults && chance(1, 3) { Some(choose(nsess as u32) as usize) } else { None };
+    if let Some(i) = stalled {
+        sess[i].peer.set_capacity(1 + choose(12) as usize);
+        kernel::count("fault_peer_stall");
+        out.probe("racy_session_peer_stalled");
+    }
     // interleave deliveries and execution freely
     let mut guard = 0;
     loop {
@@ -761,8 +768,24 @@ pub fn run_racy(cfg: &ScenCfg, out: &mut RunOut) {
     // faults stop: deliver what is in flight
     kernel::advance(50 * 1_000_000);
     let journal = rig.journal.lock().unwrap().clone();
-    for (i, s) in sess.iter().enumerate() {
-        let got = s.peer.take_received();
+    // the sessions whose peers kept reading are judged first, while the stalled one is still stalled
+    let mut order: Vec<usize> = (0..sess.len()).filter(|i| stalled != Some(*i)).collect();
+    order.extend(stalled);
+    for i in order {
+        let s = &sess[i];
+        let mut got = s.peer.take_received();
+        if stalled == Some(i) {
+            // the stalled peer reads again: everything it is owed arrives, in order
+            s.peer.set_capacity(usize::MAX / 2);
+            for _ in 0..4000 {
+                kernel::settle();
+                let part = s.peer.take_received();
+                if part.is_empty() {
+                    break;
+                }
+                got.extend(part);
+            }
+        }
         if got != s.expected {
             out.violate(
                 "C01",
@@ -773,6 +796,7 @@ pub fn run_racy(cfg: &ScenCfg, out: &mut RunOut) {
             return;
         }
         // handler calls of this session's unit, in order
+        let journal = if stalled == Some(i) { rig.journal.lock().unwrap().clone() } else { journal.clone() };
         let mine: Vec<(u8, Call)> = journal.iter().filter(|(u, _)| *u == s.unit).cloned().collect();
         if let Err(e) = check_journal(&mine, &s.calls, out) {
             out.violate("C02", "racy/session_journal", format!("session {} (unit {}): {}", i, s.unit, e));
